@@ -468,7 +468,7 @@ class Units(object):
                 expo += new_name[key]
 
             if expo == 0:
-                del new_name[key]
+                new_name.pop(key, None)     # the key may be absent (power 0)
             else:
                 new_name[key] = expo
 
@@ -489,7 +489,7 @@ class Units(object):
                 expo -= new_name[key]
 
             if expo == 0:
-                del new_name[key]
+                new_name.pop(key, None)     # the key may be absent (power 0)
             else:
                 new_name[key] = -expo
 
